@@ -17,7 +17,7 @@ def kvOf (ws : List String) (k : String) : String :=
 def c15step (_ : Unit) (op : String) (impl : String) : Unit × String :=
   let ws := op.splitOn " "
   let kind := ws.headD ""
-  if kind != "run" && kind != "probe-recycle" && kind != "probe-persist-close" && kind != "probe-pause-close" && kind != "probe-shared-requests" then ((), "bad-op" ++ sep ++ "na") else
+  if kind != "run" && kind != "probe-recycle" && kind != "probe-persist-close" && kind != "probe-pause-close" && kind != "probe-shared-requests" && kind != "probe-cold-start" then ((), "bad-op" ++ sep ++ "na") else
   let dir := kvOf ws "dir"
   let mode := kvOf ws "mode"
   let expected := if dir == "mem" then "ok closed mem-noreopen" else "ok closed reopened acked_present"
@@ -43,7 +43,8 @@ def c15step (_ : Unit) (op : String) (impl : String) : Unit × String :=
                (if (kvOf ws "share").toNat!.testBit 2 then ["parallel-shared-aggregation-definitions"] else []) ++
                (if (kvOf ws "share").toNat!.testBit 3 then ["parallel-shared-term-queries"] else []) ++
                (if (kvOf ws "share").toNat!.testBit 4 then ["parallel-shared-boolean-query"] else [])
-             else [])
+             else []) ++
+            (if kind == "probe-cold-start" then ["cold-start-parallel-first-use"] else [])
   ((), expected ++ sep ++ verdict ++ " br=" ++ ",".intercalate br)
 
 def main : IO Unit := driverLoop () c15step
